@@ -17,7 +17,9 @@ ASSUMPTIONS = ["Tree elements are compared in the order the implementation's own
 
 TYPE_NAMES = ["Int", "Float", "String", "Array", "List", "Table", "Tree", "Tuple", "Type", "Ref", "Box", "Range",
               "Slice", "Zip", "Filter", "Map", "File", "Mutex", "Thread", "Function", "Exception", "KeyError",
-              "IOError", "TypeError", "ValueError", "Cmp", "Hash", "Len", "Iter", "Get", "Push", "C_Str", "C_Int"]
+              "IOError", "TypeError", "ValueError", "Cmp", "Hash", "Len", "Iter", "Get", "Push", "C_Str", "C_Int",
+              # user types whose names are prefixes / extensions of other names
+              "Blob", "Blo", "BlobX", "In", "IntX", "Blo", "BlobX", "In", "IntX"]
 
 
 def prepare(tier):
